@@ -256,6 +256,16 @@ def f_resdetached(kind="fail", slow_len=4):
     root = [statics, ["plan", "./p1.py"], ["plan", "./p2.py"]]
     if kind == "fail":
         p1.append(["exit", 1])
+    elif kind == "defer_changed":
+        # like defer, but the second execution of p1 (g.txt exists by then) declares ./a.py with
+        # another signature (an extra input) while the command of the first declaration runs
+        p1 = [["ifexists", "g.txt",
+               ["run", "./a.py", {"inp": ["src.txt"], "out": ["a.out"], "resources": {"gpu": 1}}],
+               ["run", "./a.py", {"out": ["a.out"], "resources": {"gpu": 1}}]],
+              ["amend", {"inp": ["g.txt"]}], ["read", "g.txt"]]
+        statics.append("p3.py")
+        root.append(["plan", "./p3.py"])
+        files["p3.py"] = script([tr("G", ["src.txt"], ["g.txt"])])
     else:
         p1 += [["amend", {"inp": ["g.txt"]}], ["read", "g.txt"]]
         statics.append("p3.py")
